@@ -1,6 +1,7 @@
 package main
 
 import (
+	"fmt"
 	"go/constant"
 	"go/token"
 	"sort"
@@ -143,5 +144,23 @@ func checkC06(c *Ctx) {
 		f := p.Func("hpke", "dhKemBase", n)
 		c.guard(p, "C06.flaguse", "calcDH failure is an error of the HPKE DHKEM", f,
 			GuardSpec{Assumes: []Assume{calleeAssume(latNonNil, -1, "invoke (hpke.dhKEM).calcDH")}})
+	}
+	// ... at every call site, in every function of the package that computes a DH value (the authenticated
+	// modes compute two: a second failure must not be overwritten by the next assignment)
+	{
+		var callers []*ssa.Function
+		for f := range p.AllFuncs {
+			if f.Blocks != nil && funcPkgPath(f) == circlPath+"/hpke" && f.Synthetic == "" && len(p.callSites(f, "invoke (hpke.dhKEM).calcDH")) > 0 {
+				callers = append(callers, f)
+			}
+		}
+		sort.Slice(callers, func(i, j int) bool { return callers[i].String() < callers[j].String() })
+		c.count("calcdh_callers", len(callers))
+		if len(callers) < 4 {
+			c.undecided("C06.flaguse", "hpke: functions that call calcDH", fmt.Sprintf("only %d found (floor 4)", len(callers)), "")
+		}
+		for _, f := range callers {
+			c.guardEachSite(p, "C06.flaguse", "a failed DH is an error", f, -1, latNonNil, "invoke (hpke.dhKEM).calcDH")
+		}
 	}
 }
